@@ -51,6 +51,10 @@ def _job(args):
                 i = int(parts[1])
                 res["reject_context"] = lines[max(1, i - 12):i + 3]
                 res["reject_line"] = lines[i + 1] if i + 1 < len(lines) else None
+    if "L5run" in mons:
+        pass
+    if run.results.get("l5") is not None:
+        res["l5"] = run.results["l5"]
     if run.status not in ("all-finished",):
         res["violations"].append({"monitor": "sched", "kind": "hang", "what": f"run ended with status {run.status}; threads still blocked: {run.blocked}"})
     if res["violations"] or want_trace:
